@@ -69,11 +69,85 @@ def confirm_d32(ctx):
         ctx.violation("d32", {"kind": "failing-call-changes-state", "witness": "matmul_bw temporaries exceed 2^32: ga updated before Error :: " + out.strip()[-200:]}, True)
 
 
+def param_init_tie(ctx):
+    """Correspondence for Fault/ParamInit.v: Parameter::init / add_stats on the real code with the
+    allocation failure at every index (fault_drv pinit) against the model evaluated inside Coq."""
+    import os
+    drv = pv.build_harness("plain", "fault_drv")
+    rc, out = pv.sh(drv + " pinit", timeout=300)
+    obs = []
+    for l in out.splitlines():
+        m = re.match(r"PINIT (\S+) k=(-?\d+) outcome=(\S+) live_delta=(-?\d+) stats=(\d+)", l)
+        if m:
+            obs.append((m.group(1), int(m.group(2)), m.group(3), int(m.group(4)), int(m.group(5))))
+    info = {"implementation_lines": len(obs), "rc": rc}
+    if rc != 0 or len(obs) < 14:
+        ctx.violation("pinit-run", {"kind": "crash", "rc": rc, "tail": out.splitlines()[-10:], "witness": "fault_drv pinit"}, True, "fault_drv pinit rc=%d, %d lines" % (rc, len(obs)))
+        ctx.cov["param_init_tie"] = info
+        return
+    # the same scenarios in the model: shapes are their sizes (6, 4, 12 with has_batch), live counter starts at 10
+    def sig(k):
+        return "(fun i => Nat.eqb i %d)" % k if k >= 0 else "(fun _ => false)"
+    terms = []
+    for (op, k, _o, _d, _s) in obs:
+        st = "[(7, {| t_shape := 2; t_val := 0 |})]" if op in ("init1", "init-size", "init-batch", "addstats-dup") else "[]"
+        w = "(W0 %s)" % st
+        if op in ("init0", "init1"):
+            t = "run_init %s 6 6 %s" % (sig(k), w)
+        elif op == "init-size":
+            t = "run_init %s 4 6 %s" % (sig(k), w)
+        elif op == "init-batch":
+            t = "run_init %s 12 12 %s" % (sig(k), w)
+        elif op == "addstats":
+            t = "run_add %s 7 %s" % (sig(k), w)
+        else:
+            t = "run_add %s 7 %s" % (sig(k), w)
+        terms.append(t)
+    src = """From Coq Require Import List Bool Arith.
+From PV Require Import Base.Err Fault.ParamInit.
+Import ListNotations.
+Definition W0 (st : list (nat * tens nat nat)) : world nat nat nat :=
+  {| w_par := {| p_valid := true; p_shape := Some 6; p_device := 0; p_value := Some {| t_shape := 6; t_val := 1 |};
+                 p_grad := Some {| t_shape := 6; t_val := 0 |}; p_stats := st |}; w_count := 0; w_live := 10 |}.
+Definition res (r : option unit * world nat nat nat) :=
+  (match fst r with Some _ => true | None => false end, w_live _ _ _ (snd r), length (p_stats _ _ _ (w_par _ _ _ (snd r)))).
+Definition run_init (sg : nat -> bool) (sh nvals : nat) w :=
+  res (init_by_values nat nat nat (fun s => Nat.eqb s 12) (fun s => s) (fun _ => 0) sg true 0 sh 9 nvals w).
+Definition run_add (sg : nat -> bool) (n : nat) w := res (add_stats nat nat nat Nat.eqb (fun _ => 0) sg n 2 w).
+Eval vm_compute in [%s].
+""" % ";\n  ".join(terms)
+    d = os.path.join(pv.WORK, "gen")
+    os.makedirs(d, exist_ok=True)
+    f = os.path.join(d, "PinitCases.v")
+    open(f, "w").write(src)
+    rc2, out2 = pv.sh("cd %s && timeout 300 coqc -Q %s PV PinitCases.v" % (d, pv.COQ), timeout=400)
+    pred = re.findall(r"\(\s*(true|false),\s*(\d+),\s*(\d+)\s*\)", out2)
+    info["model_lines"] = len(pred)
+    if rc2 != 0 or len(pred) != len(obs):
+        ctx.violation("pinit-model", {"kind": "model-run", "rc": rc2, "tail": out2[-1500:], "witness": "PinitCases.v"}, False,
+                      "the model evaluation of the Parameter::init scenarios failed (rc=%d, %d results for %d cases)" % (rc2, len(pred), len(obs)))
+        ctx.cov["param_init_tie"] = info
+        return
+    bad = 0
+    for (op, k, o, dl, ns), (mok, mlive, mst) in zip(obs, pred):
+        mo = "ok" if mok == "true" else "Error"
+        if (o, dl, ns) != (mo, int(mlive) - 10, int(mst)):
+            bad += 1
+            ctx.violation("pinit", {"kind": "correspondence", "case": "%s k=%d" % (op, k), "implementation": {"outcome": o, "live_delta": dl, "stats": ns},
+                                    "model": {"outcome": mo, "live_delta": int(mlive) - 10, "stats": int(mst)}, "witness": "pinit :: %s k=%d" % (op, k),
+                                    "replay_hint": "%s pinit" % drv}, True,
+                          "Parameter %s with the allocation failure at k=%d: implementation %s live_delta=%d stats=%d, model (Fault/ParamInit.v) %s live_delta=%d stats=%d"
+                          % (op, k, o, dl, ns, mo, int(mlive) - 10, int(mst)))
+    info["disagreements"] = bad
+    ctx.cov["param_init_tie"] = info
+
+
 def run(ctx):
     ctx.level = "proof"
     res = ctx.prove()
     run_fault(ctx, "plain", 12 if ctx.quick() else 60)
     run_fault(ctx, "asan", 6 if ctx.quick() else 60)
+    param_init_tie(ctx)
     n = 4000 if ctx.quick() else 50000
     cases, bad = tc.run_stream(ctx, "rejected-calls-keep-operands", BW_INPLACE, n, backend="naive")
     tc.optional_part(ctx, "frontend", "run_part", 3000 if ctx.quick() else 40000)
